@@ -523,7 +523,9 @@ class ExpandingWindowSplitter(BaseWindowSplitter):
     def _split_windows(start, end, step_length, window_length, fh):
         """Expanding windows"""
         for split_point in range(start, end, step_length):
-            train = np.arange(start - window_length, split_point)
+            # an expanding window always begins at the first observation, also
+            # when an in-sample horizon has moved the first split point forward
+            train = np.arange(0, split_point)
             test = split_point + fh - 1
             yield train, test
 
